@@ -83,6 +83,10 @@ CHECKS = {
    text="Wiring link of the join property, on real code: each of the 8 generated XYsWith joins (through its default wrapper) and IngressPods runs with the real typed monitors and kcache.monitor between fake untyped controllers (typed objects are the real typed wrappers). The environment makes the source ready and performs K source changes (appear / change / disappear, symbolic namespaces, names, selectors); at every quiescent point z3 shows the filter most recently handed to the destination's for-filter clone equals (FiltersEqual, and agrees on a symbolic pod with) the join's selection rule applied to the current source content, that nothing is refiltered before the source is ready, and that closing the result closes the clone and the monitor's subscription, leaves source and destination running, and leaves no library goroutine behind; for IngressPods also that the intermediate join is closed.",
    note="Compositional claim: join cache = destination objects selected by current source objects follows from this link + C19 (selection rules) + C06/C08 (for-filter clone content and readiness) + C16 (monitor ordering); the end-to-end system of two controllers is not explored as one state space. Bounds: <=1 initial source object, K<=2 (thorough 3) changes, selectors with one symbolic label.",
    ref="DESIGN.md §4 C09"),
+ "C20": dict(
+   text="Decided semantically, with the identical harness text generated for each of the 12 typed packages: adaptList/typed cache List/Get/wrapEvent on symbolic mixed lists of own-typed and foreign-typed objects equal the untyped result restricted to the type; the real typed subscription.run and typed NewMonitor (over the real kcache.monitor) forward exactly the own-typed events in order and skip foreign ones; Ready/Done/Close/Refilter delegate to the parent; each typed NewClient asks client.ForResource for the API group accessor, resource name and (symbolic) namespace of its own type, the empty namespace passed through. The 8 generated joins satisfy one common wiring specification (C09 harness).",
+   note="Not applicable clauses (stated in DESIGN.md §5): textual equality of generated sources with the instantiated template is a syntactic diff, not a solver question - replaced by behavioural equivalence to one specification; the HTTP paths/queries built by client-go are outside the interpretable subset - only the arguments kcache passes (group client, resource, namespace) are checked. Bounds: lists <=3 (4) objects, streams <=2 (3) events.",
+   ref="DESIGN.md §4 C20"),
 }
 NOT_APPLICABLE = {}
 PENDING = "check under construction in this session: harness not yet registered (no claim is made)"
